@@ -111,7 +111,21 @@ def _behaviour(case):
     for r in recs:
         r['fp'] = f't=behaviour;{r["kind"]};{r.get("tkind", "")}'
         r['tid'] = case['bid']
+        if r['kind'] == 'fit':
+            r['d_proc'] = ''
     return recs
+
+
+def _ref(case):
+    """Reference evaluation in THIS (fresh) interpreter process: every distinct fit key once, fresh trainer each, in the
+    order given (the orchestrator passes the reverse of the order in which the replayed behaviours met them)."""
+    out = {}
+    for key in case['keys']:
+        kind, D, maxc, data = key.split(':')
+        y, init = _fit_args(kind, int(D), int(data))
+        m, e = call(_do_fit, _mk_trainer(kind, 0, float(maxc)), kind, y, init)
+        out[key] = _digest_obj(m) if m is not None else 'failed:' + e
+    return [dict(kind='ref', digests=out, fp='t=ref', exc='')]
 
 
 # ---------------------------------------------------------------------------
@@ -220,6 +234,10 @@ def _call_case(case):
     make, fn, seeded = REG[case['name']]
     rng = np.random.default_rng(case['seed'])
     args = make(rng)
+    lay = case.get('layout', 'C')
+    if lay != 'C':
+        args = [(np.asfortranarray(a) if lay == 'F' else np.ascontiguousarray(a.swapaxes(-1, -2)).swapaxes(-1, -2))
+                if isinstance(a, np.ndarray) and a.ndim >= 2 else a for a in args]
     arrs = [a for a in args if isinstance(a, np.ndarray)]
     before = [enc.digest(a) for a in arrs]
     for a in arrs:
@@ -242,7 +260,7 @@ def _call_case(case):
                  argdigest='|'.join(before), args_same=before == after, exc=exc,
                  exc_expected=exc in ('AssertionError', 'ValueError', 'LinAlgError'),
                  d1=outs[0] if outs else '', d2=outs[1] if len(outs) > 1 else '', nargs=len(arrs),
-                 fp=f't=call;fn={case["name"]}')]
+                 fp=f't=call;fn={case["name"]};layout={lay}')]
 
 
 # ---------------------------------------------------------------------------
@@ -288,8 +306,9 @@ def cases(tier, seed, args):
         global REG
         REG = REG or registry()
         for name in REG:
-            for rep in range(1 if q else 4):
-                out.append(dict(t='call', name=name, seed=int(rng.integers(1 << 30))))
+            for rep in range(3 if q else 6):
+                # memory layout of the caller's arrays: C order, Fortran order, Fortran-contiguous trailing 2-D slices
+                out.append(dict(t='call', name=name, seed=int(rng.integers(1 << 30)), layout=['C', 'F', 'slice'][rep % 3]))
     if what == 'splits':
         for i in range(16 if q else 160):
             n = int(rng.integers(2, 9 if q else 21))
@@ -306,6 +325,8 @@ def cases(tier, seed, args):
 def run_case(case):
     if case['t'] == 'behaviour':
         return _behaviour(case)
+    if case['t'] == 'ref':
+        return _ref(case)
     if case['t'] == 'call':
         return _call_case(case)
     if case['t'] == 'split':
